@@ -94,6 +94,8 @@ def r2(run: Run, src, cg):
     lib = library_exceptions(src)
     from .common import inlined_function
     fi = inlined_function(src, 'Parser._translate')
+    from ..inline import coalesce_copies
+    fi.node = coalesce_copies(fi.node)          # one name per object: `excel = <what the helper called its workbook>`
     fn = fi.node
     parents = parent_map(fn)
     gates = [n for n in ast.walk(fn) if isinstance(n, ast.Call) and isinstance(n.func, ast.Attribute) and n.func.attr == 'is_safe']
@@ -207,7 +209,55 @@ def r2(run: Run, src, cg):
               loc=loc_of(exc.module.path, exc.node))
 
 
+PROBES = [
+    # (cell value, fragments that must be reported)
+    ('eval(1)', ['eval(1)']), ('x = exec(2)', ['exec(2)']), ('os.system("rm -rf")', ['system("rm -rf")']), ('a_b1(c)', ['a_b1(c)']),
+    ('foo()', ['foo()']), ('eval(1) exec(2)', ['eval(1)', 'exec(2)']), ('__import__(os)', ['__import__(os)']),
+    ('=print(A1)', ['print(A1)']), ('getattr(x, y)', ['getattr(x, y)']), ('  compile(s)  ', ['compile(s)']),
+    ('SUM(A1:A2)', []), ('=IF(A1>0;MAX(B1;2);3)', []), ('=SUM(A1)+COUNT(B1:B2)', []), ('text', []), ('', []), ('(1+2)', []),
+    ('a (b)', []), ('x(', []), ('A1', []), ('3.5', []), ('TRUE', []), ('=VLOOKUP(A1;B1:C5;2)', []), ('ROUND(1.5;0)', []),
+]
+VALUE_PROBES = [(12.5, []), (7, []), (None, []), (True, []), (0, [])]
+
+
+def r3_eval(run: Run, src):
+    """which fragments of a cell value are reported, decided by abstract evaluation (engine F; the regular expressions are run by
+    the standard library on constant patterns) of Excel._get_suspicious_constructions on probe values: call syntax in lower
+    case is reported fragment by fragment, in order; upper-case function calls, plain text and numbers never are"""
+    from ..finite import evaluator_for_class, const_av, Unknown, AbsRaise
+    ex = src.cls('Excel')
+    fi = ex.methods.get('_get_suspicious_constructions')
+    if fi is None:
+        raise AnalysisError('C19.R3', 'Excel._get_suspicious_constructions not found')
+    loc = loc_of(fi.module.path, fi.node)
+    for value, want in PROBES + VALUE_PROBES:
+        ev = evaluator_for_class(ex)
+        construct = f'suspicious/{value!r}'
+        try:
+            res = ev.call_method('_get_suspicious_constructions', [const_av(value)])
+            res = ev.unbox(res)
+            if res.items is None or not all(isinstance(x.val, str) for x in res.items):
+                raise Unknown(f'a result of unknown contents {res!r}')
+            got = [x.val for x in res.items]
+        except Unknown as u:
+            raise AnalysisError('C19.R3', f'{construct}: the abstraction cannot follow the helper ({u})')
+        except AbsRaise as e:
+            got = f'raises {e.exc}'
+        run.check(got == want, 'C19.R3', construct, 'fragments',
+                  f'for the cell value {value!r} the fragments reported are {got!r}; call syntax that is not an upper-case function '
+                  f'call must be reported fragment by fragment and nothing else: {want!r}', fact=f'-> {got!r}', loc=loc)
+
+
 def r3(run: Run, src):
+    try:
+        r3_eval(run, src)
+        run.extra['suspicious_by_evaluation'] = True
+    except AnalysisError as e:
+        run.note(f'C19.R3: the fragment scanner by structure ({e.reason[:120]})')
+    _r3_structural(run, src, patterns=not run.extra.get('suspicious_by_evaluation'))
+
+
+def _r3_patterns(run: Run, src, shape_checks=True):
     ex = src.cls('Excel')
     fi = ex.methods.get('_get_suspicious_constructions')
     if fi is None:
@@ -246,8 +296,9 @@ def r3(run: Run, src):
         raise AnalysisError('C19.R3', f'expected two constant regex uses, found {len(uses)}')
     call_rx, ex_rx = uses
     # value is stringified first
-    run.check('str(' in ast.unparse(fi.node), 'C19.R3', 'suspicious/str', 'not-stringified', 'the cell value is not converted to text '
-              'before matching', fact='str(value)', loc=loc)
+    if shape_checks:
+        run.check('str(' in ast.unparse(fi.node), 'C19.R3', 'suspicious/str', 'not-stringified', 'the cell value is not converted to text '
+                  'before matching', fact='str(value)', loc=loc)
 
     def ident_before_paren(call):
         rx = Regex(call.pattern)
@@ -294,8 +345,9 @@ def r3(run: Run, src):
               f'characters that excludes {missing[:8]}: a call whose arguments contain such a character (eval((1+2)*3), '
               f'print((1, 2))) is not recognised as call syntax and its cell is not reported',
               fact='any characters up to the closing parenthesis', loc=loc_of(fi.module.path, call_rx.node))
-    run.check(call_rx.method == 'findall', 'C19.R3', 'suspicious/call-findall', 'not-findall', 'fragments are not collected with findall',
-              fact='findall', loc=loc)
+    if shape_checks:
+        run.check(call_rx.method == 'findall', 'C19.R3', 'suspicious/call-findall', 'not-findall', 'fragments are not collected with findall',
+                  fact='findall', loc=loc)
     run.check(echars <= UPPER and len(echars) > 0, 'C19.R3', 'suspicious/exemption-pattern', 'exemption-class',
               f'the exemption pattern {ex_rx.pattern!r} admits {sorted(echars - UPPER)[:8]} before "(": only upper-case Excel '
               f'function names may be exempted', fact='upper-case letters only', loc=loc_of(fi.module.path, ex_rx.node))
@@ -306,6 +358,8 @@ def r3(run: Run, src):
               f'the exemption pattern {ex_rx.pattern!r} is applied with re.{ex_rx.method}, i.e. only at the beginning of the fragment: a '
               f'fragment whose upper-case call does not start at its first character (DEC2BIN(A1), HEX2DEC(B3)) is reported as Python-like',
               fact=f'unanchored ({ex_rx.method})', loc=loc_of(fi.module.path, ex_rx.node))
+    if not shape_checks:
+        return                  # which fragments are selected is decided by the evaluated probes
     # a fragment is listed iff it matches the first and not the second
     from .common import flat_conditions
     from ..inline import nest_guards
@@ -361,6 +415,21 @@ def r3(run: Run, src):
     run.check(ok, 'C19.R3', 'suspicious/selection', 'selection',
               'the reported fragments are not exactly those call-syntax fragments that do not match the exemption pattern',
               fact='[f for f in fragments if not exemption(f)]', loc=loc)
+
+
+def _r3_structural(run: Run, src, patterns=True):
+    """the regular expressions as languages (every identifier character before "(", any argument list, upper-case exemption,
+    unanchored exemption) whenever the two patterns can be found; the shape of the selection only when the probes could not be
+    evaluated"""
+    try:
+        _r3_patterns(run, src, shape_checks=patterns)
+    except AnalysisError as e:
+        if patterns:
+            raise
+        run.note(f'C19.R3: the patterns were not read as languages ({e.reason[:100]}); the probes decide')
+    ex = src.cls('Excel')
+    fi = ex.methods.get('_get_suspicious_constructions')
+    loc = loc_of(fi.module.path, fi.node)
     # the reader: every non-empty cell is tested, entered iff non-empty -- decided by the evaluated reader when it can be followed
     sub_ = Run('tmp', run.tier, run.seed, quiet=True)
     try:
